@@ -14,7 +14,6 @@ code -> spec : what the readers returned (plus seeded larger random dtypes / hea
                and judged by BinRoundTripTrace.tla under TLC.
 Python never judges: it maps abstract <-> concrete and records.
 """
-import ast
 import atexit
 import collections
 import json
@@ -74,6 +73,8 @@ HEADERS = [
     {"mixedkeys": {1: "a", "b": 2, None: 3, (1, 2): 4, 2.5: 5}},
     {"ctrl": "\x00\x01\t\r\x0b\x0c\x1b\x7f", "surrogate": "\ud800", "hash": "# not a comment", "br": "{[(", "arr": "array([1])"},
     {"END\n": "\n", "\nEND": "END\n\n", "'": '"', '"': "'", "\n": "\nEND\n\nEND\n"},
+    {"pinf": float("inf"), "ninf": float("-inf"), "nan": float("nan"), "big": 1e308},
+    {"nested": [float("inf"), (float("nan"), -0.0), {"k": float("-inf"), "n": [float("nan"), "nan", "inf"]}], "s": "inf nan"},
 ]
 
 TIERS = {
@@ -175,6 +176,46 @@ def build_array(descr, nrows, pat):
     return np.frombuffer(b"".join(rows), dtype=dt).copy()
 
 
+LAYOUTS = ("contig", "step2", "reversed", "column2d", "zerod")
+
+
+def lay_out(a, layout, descr, pat):
+    """the same rows in another memory layout: a view into a larger / differently ordered buffer whose other rows
+    are decoys (so that rows taken from the buffer instead of the array as indexed are seen)"""
+    n = a.size
+    if layout == "contig":
+        return a
+    if layout == "zerod":
+        if n != 1:
+            raise MachineryError("a 0-d array has one row")
+        return a.reshape(())
+    decoy = build_array(descr, 2 * n, pat + 7919)
+    if layout == "step2":
+        buf = np.empty(2 * n, dtype=a.dtype)
+        buf[1::2] = decoy[:n]
+        buf[::2] = a
+        v = buf[::2]
+    elif layout == "reversed":
+        buf = a[::-1].copy()
+        v = buf[::-1]
+    elif layout == "column2d":
+        buf = np.empty((n, 3), dtype=a.dtype)
+        buf[:, 0] = decoy[:n]
+        buf[:, 2] = decoy[n:]
+        buf[:, 1] = a
+        v = buf[:, 1]
+    else:
+        raise MachineryError("unknown layout %r" % layout)
+    if v.tobytes() != a.tobytes() or (n > 1 and v.flags["C_CONTIGUOUS"]):
+        raise MachineryError("layout %s was not constructed as intended" % layout)
+    return v
+
+
+def case_array(case):
+    a = build_array(case["descr"], case["nrows"], case.get("pat", 0))
+    return lay_out(a, case.get("layout", "contig"), case["descr"], case.get("pat", 0))
+
+
 def row_tokens(a):
     """row byte patterns -> tokens (equal bytes <=> equal token), and the lookup table"""
     tab, toks = {}, []
@@ -208,8 +249,18 @@ def project_rows(data, tab):
 
 
 def safe_eq(a, b):
+    """the statement's "equal value": Python ==; a float nan is matched by a float nan (nan == nan is False, so
+    equality cannot be demanded of nan itself), also inside lists / tuples / dicts"""
     try:
-        return bool(a == b)
+        if bool(a == b):
+            return True
+        if isinstance(a, float) and isinstance(b, float):
+            return a != a and b != b
+        if type(a) is type(b) and isinstance(a, (list, tuple)):
+            return len(a) == len(b) and all(safe_eq(x, y) for x, y in zip(a, b))
+        if isinstance(a, dict) and isinstance(b, dict):
+            return len(a) == len(b) and all(k in b and safe_eq(v, b[k]) for k, v in a.items())
+        return False
     except Exception:  # noqa
         return False
 
@@ -245,7 +296,7 @@ def strict_equal(a, b):
     if isinstance(a, (list, tuple)):
         return len(a) == len(b) and all(strict_equal(x, y) for x, y in zip(a, b))
     if isinstance(a, float):
-        return struct.pack("<d", a) == struct.pack("<d", b)
+        return (a != a and b != b) or struct.pack("<d", a) == struct.pack("<d", b)
     return a == b
 
 
@@ -268,8 +319,12 @@ def _process_dir():
     return _SESSION["dir"]
 
 
+_HDR_NAMES = {"__builtins__": {}, "inf": float("inf"), "nan": float("nan")}
+
+
 def header_of(case):
-    return ast.literal_eval(case["hdr"]) if case.get("hdr") is not None else None
+    """the header of a case is carried as its repr (finite literals, inf, nan)"""
+    return eval(case["hdr"], dict(_HDR_NAMES)) if case.get("hdr") is not None else None   # noqa: S307 - our own text
 
 
 def do_write(writer, path, a, hdr):
@@ -339,7 +394,7 @@ def do_read(reader, path, a, off, variant, reuse):
 def _write_only(case, path, reuse):
     """the predecessor of a unit: written (and opened through the re-used handle) on the same path, not judged"""
     try:
-        a = build_array(case["descr"], case["nrows"], case.get("pat", 0))
+        a = case_array(case)
         do_write(case["writer"], path, a, header_of(case))
         if case["writer"] in HDR_WRITERS:
             reuse.open(path)
@@ -362,13 +417,13 @@ def exec_unit(args):
             os.unlink(path)
         if prev is not None:
             _write_only(prev, path, reuse)
-        a = build_array(case["descr"], case["nrows"], case.get("pat", 0))
+        a = case_array(case)
         hdr = header_of(case)
         user = list(hdr.items()) if hdr else []
         toks, tab = row_tokens(a)
         before = a.tobytes()
         rec = {"id": rid, "case": case, "prev": prev,
-               "c": {"writer": case["writer"], "descr": project_dtype(a.dtype), "rows": toks,
+               "c": {"writer": case["writer"], "layout": case.get("layout", "contig"), "descr": project_dtype(a.dtype), "rows": toks,
                      "hdr": {"given": hdr is not None,
                              "ents": [{"k": i, "v": i, "reserved": k.startswith("_")} for i, (k, _) in enumerate(user, 1)]}},
                "w": {"err": "none"}, "obs": [], "groups": [], "raw": {"seen": False, "rows": []}, "info": {}}
@@ -539,12 +594,12 @@ def robust_map(fn, items, on_crash, chunk=None):
 def crash_record(unit, why):
     """the record of a unit during which the interpreter died"""
     rid, prev, case = unit
-    a = build_array(case["descr"], case["nrows"], case.get("pat", 0))
+    a = case_array(case)
     hdr = header_of(case)
     user = list(hdr.items()) if hdr else []
     toks, _ = row_tokens(a)
     rec = {"id": rid, "case": case, "prev": prev,
-           "c": {"writer": case["writer"], "descr": project_dtype(a.dtype), "rows": toks,
+           "c": {"writer": case["writer"], "layout": case.get("layout", "contig"), "descr": project_dtype(a.dtype), "rows": toks,
                  "hdr": {"given": hdr is not None,
                          "ents": [{"k": i, "v": i, "reserved": k.startswith("_")} for i, (k, _) in enumerate(user, 1)]}},
            "w": {"err": "crashed", "msg": why}, "obs": [], "raw": {"seen": False, "rows": []}, "info": {}}
@@ -571,7 +626,7 @@ def run_units(us):
 def case_from_mc(c, k):
     """a case exported by BinRoundTripMC (header id -> the catalogue's header)"""
     h = HEADERS[c["hid"]]
-    return {"src": c["src"], "writer": c["writer"], "descr": c["descr"], "nrows": c["nrows"],
+    return {"src": c["src"], "writer": c["writer"], "layout": c["layout"], "descr": c["descr"], "nrows": c["nrows"],
             "hdr": None if h is None else repr(h), "hid": c["hid"], "pat": k}
 
 
@@ -584,7 +639,8 @@ def case_from_fmt(hc, k):
         raise MachineryError("header case with colliding keys: %s" % hc)
     descr = [{"name": word(hc["name"]), "kind": "f", "size": 8, "shape": [], "order": "lt"},
              {"name": "i", "kind": "i", "size": 4, "shape": [], "order": "gt"}]
-    return {"src": "hdrtext", "writer": HDR_WRITERS[k % len(HDR_WRITERS)], "descr": descr, "nrows": hc["n"],
+    return {"src": "hdrtext", "writer": HDR_WRITERS[k % len(HDR_WRITERS)], "layout": LAYOUTS[(k // 4) % 4], "descr": descr,
+            "nrows": hc["n"],
             "hdr": repr(hdr), "hlen_model": hc["hlen"], "pinned_fails": bool(hc["pinned_fails"]), "pat": k}
 
 
@@ -613,7 +669,7 @@ def rand_leaf(rng):
         return rng.choice([0, 1, -1, 2 ** 31, -2 ** 63, 2 ** 64, 10 ** 30, rng.randrange(-10 ** 6, 10 ** 6)])
     if r < 0.65:
         return rng.choice([0.0, -0.0, 0.1, 1e300, -1e-300, 5e-324, 1.7976931348623157e308, rng.uniform(-1e6, 1e6),
-                           float(rng.randrange(-10 ** 6, 10 ** 6)) / 7])
+                           float(rng.randrange(-10 ** 6, 10 ** 6)) / 7, float("inf"), float("-inf"), float("nan")])
     if r < 0.75:
         return rand_str(rng).encode("utf-8", "surrogatepass")[: rng.choice([1, 5, 40])]
     if r < 0.85:
@@ -665,17 +721,31 @@ def rand_case(rng, k):
                       "order": rng.choice(["lt", "gt"]) if has else "na"})
     writer = rng.choice(WRITERS)
     hdr = rand_header(rng) if writer in HDR_WRITERS else None
-    return {"src": "random", "writer": writer, "descr": descr, "nrows": rng.choice([1, 1, 2, 2, 5, 5, 17, 64]),
+    nrows = rng.choice([1, 1, 2, 2, 5, 5, 17, 64])
+    layout = rng.choice(LAYOUTS if nrows == 1 else LAYOUTS[:4])
+    return {"src": "random", "writer": writer, "layout": layout, "descr": descr, "nrows": nrows,
             "hdr": None if hdr is None else repr(hdr), "pat": k}
 
 
 # =========================================== judging ==================================================================
+def _has_nonfinite(v):
+    if isinstance(v, float):
+        return v != v or v in (float("inf"), float("-inf"))
+    if isinstance(v, dict):
+        return any(_has_nonfinite(x) for x in v.values()) or any(_has_nonfinite(x) for x in v)
+    if isinstance(v, (list, tuple)):
+        return any(_has_nonfinite(x) for x in v)
+    return False
+
+
 def hdr_class(case):
     """structural class of the header text the reader has to get past: the first feature present"""
     if case["writer"] in RAW_WRITERS:
         return "no_header"
     h = header_of(case)
     text = (repr(h) if h is not None else "") + " " + " ".join(f["name"] for f in case["descr"])
+    if _has_nonfinite(h):
+        return "inf_or_nan_header_value"
     if "END" in text:
         return "END_in_header_text"
     if "SIZE" in text:
@@ -711,9 +781,11 @@ def signatures(rec, failing):
     for clause in sorted(by_clause):
         ents = by_clause[clause]
         selfs, givens = ents & set(SELF_READERS), ents & set(GIVEN_READERS)
-        if clause in ("write_rejected", "raw_rows", "process_crashed"):
+        if clause in ("write_rejected", "process_crashed"):
             groups = [case["writer"]]
-        elif all_self and selfs == all_self and givens == all_given:
+        elif clause == "raw_rows":
+            groups = ["write"]                       # the bytes on disk are wrong: the writing side (named in `what`)
+        elif selfs == all_self and givens == all_given:
             groups = ["write" if "raw_rows" in by_clause else "all_readers"]
         elif all_self and selfs == all_self and not givens:
             groups = ["read_header" if clause == "unexpected_error" else "self_describing_readers"]
@@ -730,8 +802,9 @@ def signatures(rec, failing):
             elif clause in ("unexpected_error", "write_rejected", "process_crashed"):
                 sig = "%s|%s|%s" % (g, clause, "header_file" if hdr_file else "headerless_file")
             else:
-                sig = "%s|%s|%s" % (g, clause, order_class(case))
-            rep = sorted(ents)[0] if g not in ents else g
+                noncontig = case.get("layout", "contig") not in ("contig", "zerod")
+                sig = "%s|%s|%s" % (g, clause, "non_contiguous_input" if noncontig else order_class(case))
+            rep = g if g in ents else (case["writer"] if case["writer"] in ents else sorted(ents)[0])
             out.append((sig, rep, clause))
     return out
 
@@ -763,7 +836,7 @@ def units(cases, start_id):
 
 # =========================================== the check ===================================================================
 FMT_INV = ["DataStartRefines", "ParseRefines", "TerminatorUnique"]
-BRT_INV = ["ReadInv", "SizeInv", "CrossEntry", "LastWriteWins", "CasesInScope"]
+BRT_INV = ["ReadInv", "SizeInv", "CrossEntry", "LastWriteWins", "LayoutIndependent", "CasesInScope"]
 BRT_REQ = ["ChooseSingle", "ChooseFirst", "ChooseSecond", "ChooseIO", "DoWrite", "DoRead", "Rewrite"]
 
 
@@ -899,12 +972,13 @@ def run(ctx):
             [x for x in all_recs if x["case"]["src"] == "random"][:2]:
         ctx.sample({"case": r["case"], "abstract": r["c"], "observed_first_reader": r["obs"][0] if r["obs"] else None})
     # 6. binding self-test
-    selftest(ctx, all_recs)
+    selftest(ctx, [r for r in all_recs if r["id"] not in rejects])
     F, B = T["fmt"], T["brt"]
     ctx.rule = ("(a) every user header {k: v} with k a word of <= %d and v a word of <= %d tokens over {END, SIZE, ', \", newline, =, "
                 "backslash, a} or a one-/two-level list/tuple of such, plus two-entry headers, x field name in {x, END, TREND, SIZE_1} "
                 "x row count %s (exported from SFileFormatMC.tla); (b) every one-field dtype of 15 element types x 5 sub-array shapes x "
-                "byte orders and every two-field dtype over 6 types x 4 shapes x orders, %s, header ids 0..%d by a covering rule, plus %d "
+                "byte orders and every two-field dtype over 6 types x 4 shapes x orders, %s, memory layout of the written array in {contiguous, "
+                "every-second-row view, reversed view, column of a 2-d array, 0-d}, header ids 0..%d by a covering rule, plus %d "
                 "simulated 3..%d-field dtypes (BinRoundTripMC.tla); (c) %d seeded random tables (1..12 fields, rows up to 64) with random "
                 "literal headers.  Each case is written through one entry point on a path that held the previous case, read back through "
                 "every reading entry point (10 for header files, 5 for header-less ones) and judged by BinRoundTripTrace.tla.  A case is "
@@ -917,11 +991,15 @@ def run(ctx):
     ctx.tlc_runs.sort(key=lambda r: r["what"])      # shards finish in any order
     ctx.note(bounds={"fmt": {k: sorted(v) if isinstance(v, set) else v for k, v in F.items()},
                      "brt": {k: sorted(v) if isinstance(v, set) else v for k, v in B.items()}},
-             writers=list(WRITERS), readers=list(SELF_READERS + GIVEN_READERS), header_catalogue=len(HEADERS))
+             writers=list(WRITERS), readers=list(SELF_READERS + GIVEN_READERS), header_catalogue=len(HEADERS),
+             layouts=list(LAYOUTS))
     ctx.assumptions = [
         "row tokens: the harness names distinct row byte patterns; equal token <=> equal bytes (tobytes of one row)",
-        "header values: a value read back is given the id of the written value iff Python == holds (the statement's 'equal value'); "
+        "header values: a value read back is given the id of the written value iff Python == holds (the statement's 'equal value'), "
+        "a float nan being matched by a float nan (nan == nan is False: equality cannot hold for nan itself), also nested; "
         "type drift (1 vs True vs 1.0) is only counted in the evidence",
+        "the written table is the array as indexed, whatever its memory layout; aligned (padded) dtypes are outside "
+        "(their descr carries padding entries)",
         "keys starting with an underscore are treated as reserved (not constrained), the weaker reading of the statement",
         "the low-level readers are given dtype = the written array's dtype and offset = file size - rows*itemsize "
         "(the data region is the tail of the file; checked separately as clause raw_rows)",
